@@ -338,7 +338,10 @@ func (x *gen) decorate(n *N) {
 			}
 		case "numrange":
 			if g.Chance(1, 6) {
-				v := []float64{0.1, -0.0, 1e-7, 1e15 + 0.5, -2.5, 19.999999999999996}
+				// short mantissas only: a closed range between two "ugly" neighbours makes the
+				// numeric range searcher enumerate astronomically many candidate terms (C07)
+				// (also -0 next to 0: their images are adjacent int64 values)
+				v := []float64{-2.5, 30.5, -100.5, 1000000}
 				if n.Min != nil {
 					n.Min = fp(rng.Pick(g, v))
 				} else {
